@@ -22,12 +22,27 @@ def E : Engine Int where
   expectsGrad := fun k => k < 3
 
 theorem valid : ValidCall E [10, 11] [0, 1, 2] (some 2) := by
-  sorry
+  refine ⟨?_, by decide, by decide, by decide, ?_, fun _ _ => rfl, ?_⟩
+  · intro o i M h
+    simp only [E] at h ⊢
+    split at h
+    · rename_i hc; obtain ⟨rfl, rfl⟩ := hc; cases h; decide
+    · split at h
+      · rename_i hc; obtain ⟨rfl, rfl⟩ := hc; cases h; decide
+      · split at h
+        · rename_i hc; obtain ⟨rfl, rfl⟩ := hc; cases h; decide
+        · cases h
+  · intro c hc
+    cases hc
+    decide
+  · intro i hi
+    simp only [List.mem_cons, List.not_mem_nil, or_false] at hi
+    rcases hi with rfl | rfl | rfl <;> exact ⟨rfl, by decide⟩
 
 /-- the true Jacobian of the example -/
 example : fullJac E [10, 11] [0, 1, 2] =
     [[2, 3, 4, 0, 0, 0], [0, 5, 6, 0, 0, 0], [0, 7, 8, 0, 0, 0]] := by
-  sorry
+  decide
 
 /-- and what `backward` deposits with `Constant([1, 2, -3])`, chunk size 2, starting from
     `.grad = None` everywhere except input 1 which holds [10, 20] -/
@@ -36,6 +51,6 @@ example :
     let o := backward E [10, 11] [0, 1, 2] (constAgg [1, 2, -3]) (some 2) false h
     o.err = none ∧ o.grads 0 = some [2] ∧ o.grads 1 = some [10 + 3 + 10 - 21, 20 + 4 + 12 - 24] ∧
       o.grads 2 = some [0, 0, 0] ∧ o.grads 10 = none := by
-  sorry
+  decide
 
 end Tjd.Props.C01Example
